@@ -121,7 +121,11 @@ NoAstJudge(sc, u, r) ==
 
 Relative(sc, units, du, u, k) ==
   LET r == u.runs[k] pl == sc.plan[r.c] IN
-  IF u.opt # "" /\ r.h > 0 THEN   \* reuse of an optimised / -noast parser: against its own fresh run
+  IF r.h < 0 THEN   \* an instance used interleaved with (h > -1000) or concurrently to (h <= -1000) other instances:
+                    \* PegRuntime!Confinement - it shows what it shows when used alone
+     LET S == {j \in 1..Len(u.runs) : u.runs[j].i = r.i /\ u.runs[j].c = 1 /\ u.runs[j].h = 0} IN
+     IF S = {} THEN <<>> ELSE CmpFrom("C14", u, r, u.runs[CHOOSE j \in S : TRUE], 1, <<"ok", "pn", "tk", "et", "ex", "as", "pr">>)
+  ELSE IF u.opt # "" /\ r.h > 0 THEN   \* reuse of an optimised / -noast parser: against its own fresh run
      LET S == {j \in 1..Len(u.runs) : u.runs[j].i = r.i /\ u.runs[j].c = r.c /\ u.runs[j].h = 0} IN
      IF S = {} THEN <<>> ELSE CmpOwned(u, r, u.runs[CHOOSE j \in S : TRUE], 1, <<"ok", "pn", "tk", "et", "lg">>)
   ELSE IF u.opt # "" THEN
@@ -170,7 +174,7 @@ JudgeGen(sc, u) ==
   If(u.gen.hasout /\ ~u.gen.compiles, GenMis(u, "C08", "compiles", TRUE, u.gen.msg)) \o
   If(u.gen.hasout /\ ~u.gen.gofmt, GenMis(u, "C08", "gofmt", TRUE, FALSE)) \o
   If(u.gen.stderr # "" /\ u.gen.exit = 0 /\ ~("nowarn" \in DOMAIN sc /\ ~sc.nowarn), GenMis(u, "C15", "silent", "", u.gen.stderr)) \o
-  If(u.fate # "", GenMis(u, "C13", u.fate, "", u.note))
+  If(u.fate # "", GenMis(u, IF u.fate = "race" THEN "C14" ELSE "C13", u.fate, "", u.note))
 
 \* diagnostics of a grammar that need not be well formed (family "diag"); u.gen.diags is the list of
 \* <<kind, rule>> pairs the driver found on stderr
@@ -208,7 +212,7 @@ JudgeUnits(sc, B, units, du, k) ==
        (IF sc.family = "diag" THEN JudgeDiag(sc, u) ELSE JudgeGen(sc, u) \o JudgeRuns(sc, B, units, du, u, 1)) \o
        <<[kind |-> "stat", opt |-> u.opt, runs |-> Len(u.runs), hasdiag |-> (sc.family = "diag" /\ HasDiagnostics(sc.grammar)), compiled |-> u.gen.compiles, nswitch |-> u.gen.nswitch, nnil |-> u.gen.nnil,
           memooff |-> Cardinality({j \in 1..Len(u.runs) : ~sc.plan[u.runs[j].c].memo}),
-          hist |-> Cardinality({j \in 1..Len(u.runs) : u.runs[j].h > 0}),
+          hist |-> Cardinality({j \in 1..Len(u.runs) : u.runs[j].h > 0}), multi |-> Cardinality({j \in 1..Len(u.runs) : u.runs[j].h < 0}),
           accepted |-> Cardinality({j \in 1..Len(u.runs) : u.runs[j].ok}),
           nontrivial |-> Cardinality({j \in 1..Len(u.runs) : (u.runs[j].ok /\ Has(u.runs[j], "tk") /\ Len(u.runs[j].tk) >= 2)
                                                               \/ (~u.runs[j].ok /\ u.runs[j].et[3] > 0)})]>>
